@@ -8,9 +8,11 @@ import (
 func getVariableOperator(_ *dataTreeNavigator, context Context, expressionNode *ExpressionNode) (Context, error) {
 	variableName := expressionNode.Operation.StringValue
 	log.Debug("getVariableOperator %v", variableName)
-	result := context.GetVariable(variableName)
-	if result == nil {
-		result = list.New()
+	// hand out a list of our own: the union operator tells "both sides returned the context itself" from
+	// "two results" by list identity, so `$x, $x` must not return the variable's own list twice
+	result := list.New()
+	if variable := context.GetVariable(variableName); variable != nil {
+		result.PushBackList(variable)
 	}
 	return context.ChildContext(result), nil
 }
